@@ -1,5 +1,6 @@
 import Spine.Lock
 import Spine.Race
+import Spine.RaceRW
 import Spine.LockTables
 import Spine.Generated.Locks
 /-!
@@ -7,14 +8,16 @@ import Spine.Generated.Locks
 
 Property theorems only. Two layers:
 
-* **abstract** (hand-written models `Spine.Lock`, `Spine.Race`, bridge `Spine.LockTables`; proved
-  once, for every number of threads, mutexes, locations and every trace):
-  `c17_ranked_no_deadlock`, `c17_guarded_accesses_ordered`, `c17_guarded_trace_ordered`;
+* **abstract** (hand-written models `Spine.Lock`, `Spine.Race`, `Spine.RaceRW`, bridge
+  `Spine.LockTables`; proved once, for every number of threads, mutexes, locations and every
+  trace): `c17_ranked_no_deadlock`, `c17_guarded_accesses_ordered`, `c17_guarded_trace_ordered`,
+  `c17_rw_guarded_accesses_ordered` (reader/writer locks);
 * **instances over the regenerated tables** `Spine.Generated.Locks` (written by `go/lockgraph`
   from the tree under test on every run; `decide`, so a code change that alters a row re-checks
   them): `c17_lock_order_ranked`, `c17_no_lock_leak`, `c17_guarded_by`, `c17_common_lock_sound`,
   `c17_undisciplined_exact`, `c17_tables_wellformed`;
-* **connection** of the two: `c17_no_deadlock`, `c17_disciplined_fields_ordered`.
+* **connection** of the two: `c17_no_deadlock`, `c17_disciplined_fields_ordered` (exclusive mutex
+  model), `c17_disciplined_fields_ordered_rw` (reader/writer model, covers every disciplined field).
 
 What is proved: for every state of the abstract thread/lock model whose "holds h, waits for m"
 pairs are among the extracted edges, no set of threads waits cyclically; for every trace respecting
@@ -89,6 +92,29 @@ example : Race.WF exTrace ∧ Guarded 7 3 exTrace := by
 example : ¬ Guarded 7 3 [.acc 2 3 false, .rel 1 7, .acc 1 3 true, .acq 1 7] := by
   simp [Race.owner, Guarded]
 
+/-- Reader/writer locks (`sync.RWMutex`): two accesses to one location by different threads, at
+    least one of them a write, writes made under the exclusive hold of `m` and reads under some
+    hold of `m` (Lock or RLock), are separated by a release of `m` by the first thread and a later
+    acquisition of `m` by the second. -/
+theorem c17_rw_guarded_accesses_ordered (m x t1 t2 : Nat) (w1 w2 : Bool) (hne : t1 ≠ t2)
+    (hconf : w1 = true ∨ w2 = true) (earlier mid : List RaceRW.Ev)
+    (hwf : RaceRW.WF (RaceRW.Ev.acc t2 x w2 :: (mid ++ RaceRW.Ev.acc t1 x w1 :: earlier)))
+    (h1 : RaceRW.Protected earlier m t1 w1)
+    (h2 : RaceRW.Protected (mid ++ RaceRW.Ev.acc t1 x w1 :: earlier) m t2 w2) :
+    ∃ mid2 e2 mid1 e1 mid0, mid = mid2 ++ e2 :: (mid1 ++ e1 :: mid0) ∧
+      RaceRW.IsAcq e2 t2 m ∧ RaceRW.IsRel e1 t1 m :=
+  RaceRW.rw_guarded_accesses_ordered m x t1 t2 w1 w2 hne hconf earlier mid hwf h1 h2
+
+/-- non-vacuity: thread 1 reads location 3 under RLock of 7 together with thread 3, both RUnlock,
+    thread 2 Locks 7 and writes 3 — well-formed and protected; a write under RLock only (what
+    `DatagramForMsgCounter` does to the notify cache) is rejected by `GuardedRW` -/
+def exTraceRW : List RaceRW.Ev :=
+  [.acc 2 3 true, .acq 2 7, .rrel 3 7, .rrel 1 7, .acc 1 3 false, .racq 3 7, .racq 1 7]
+example : RaceRW.WF exTraceRW ∧ GuardedRW 7 3 exTraceRW := by
+  simp [exTraceRW, RaceRW.WF, RaceRW.excl, RaceRW.shared, GuardedRW, RaceRW.Protected, RaceRW.Holds]
+example : ¬ GuardedRW 7 3 [.acc 1 3 true, .racq 1 7] := by
+  simp [RaceRW.excl, GuardedRW, RaceRW.Protected]
+
 /-! ## instances over the regenerated tables -/
 
 /-- decidable form of "the table is well-formed": every id used is in the name tables -/
@@ -123,6 +149,12 @@ example : lockEdges ≠ [] ∧ (mutexNames.map (fun p => rank p.1)).any (· ≥ 
 theorem c17_no_lock_leak : lockLeaks = [] ∧ unknownLockSites = [] ∧ unbalancedUnlocks = [] := by
   decide
 
+/-- No self-edge (an object's mutex held while the same-typed mutex of another object is acquired)
+    was taken out of `lockEdges` by hand: `c17_lock_order_ranked` speaks about every extracted edge.
+    If one is ever resolved in `go/lockgraph/selfedges.json`, this theorem is to be replaced by the
+    list, which then belongs to the trusted base. -/
+theorem c17_no_hand_resolved_self_edge : resolvedSelfEdges = [] := by decide
+
 /-- the post-construction rows of a field -/
 def postRows (f : Nat) : List Access := accesses.filter (fun a => a.field == f && a.post)
 
@@ -135,7 +167,7 @@ def guardedBy (f m : Nat) : Bool :=
 def exclGuardedBy (f m : Nat) : Bool := (postRows f).all (fun a => a.excl.contains m)
 
 /-- disciplined fields some of whose reads hold the common lock only in shared mode (RWMutex):
-    the table check applies to them, the abstract ordering theorem (exclusive mutexes) does not -/
+    outside the exclusive-mutex theorem, inside the reader/writer one -/
 def rwFields : List Nat :=
   sharedFields.filter fun f => match commonLock f with
     | some m => !exclGuardedBy f m
@@ -204,10 +236,9 @@ def TableGuarded (tr : List Race.Ev) : Prop :=
     the guarded-by table, two accesses by different threads to a shared field that is not listed
     as undisciplined are separated by a release and a later acquisition of one mutex, hence ordered
     by happens-before: no data race on that field. PARTIAL: says nothing about the fields in
-    `undisciplined`, nor about `rwFields` (common lock held in shared mode by some reads: there the
-    table check `c17_common_lock_sound` requires every write to hold the lock exclusively, but the
-    abstract trace model has exclusive mutexes only), nor about memory the analyser does not see
-    (reflection). -/
+    `undisciplined`, nor about `rwFields` (common lock held in shared mode by some reads: those are
+    covered by `c17_disciplined_fields_ordered_rw` below), nor about memory the analyser does not
+    see (reflection). -/
 theorem c17_disciplined_fields_ordered (f : Nat) (hf : f ∈ sharedFields) (hd : f ∉ undisciplined)
     (hrw : f ∉ rwFields) (t1 t2 : Nat) (w1 w2 : Bool) (hne : t1 ≠ t2) (later mid earlier : List Race.Ev)
     (hwf : Race.WF (later ++ Race.Ev.acc t2 f w2 :: (mid ++ Race.Ev.acc t1 f w1 :: earlier)))
@@ -225,5 +256,31 @@ theorem c17_disciplined_fields_ordered (f : Nat) (hf : f ∈ sharedFields) (hd :
         simp only [rwFields, List.mem_filter]
         exact ⟨hf, by simp [hm, hx]⟩
     exact ⟨m, guarded_trace_ordered m f t1 t2 w1 w2 hne later mid earlier hwf (ht f m hm hex)⟩
+
+/-- a reader/writer trace respects the guarded-by table: every access to a field with a common lock
+    is protected by it — writes under the exclusive hold, reads under some hold; that the table's
+    rows say so is `c17_common_lock_sound` (THE TRUSTED-TRANSLATOR ASSUMPTION as in `TableGuarded`) -/
+def TableGuardedRW (tr : List RaceRW.Ev) : Prop :=
+  ∀ f m, commonLock f = some m → GuardedRW m f tr
+
+/-- **Race freedom for every disciplined field, reader/writer locks included.** In every trace
+    that respects reader/writer exclusion and the guarded-by table, two accesses by different
+    threads to a shared field that is not listed as undisciplined, at least one of them a write,
+    are separated by a release and a later acquisition of one mutex: ordered by happens-before, no
+    data race on that field. Covers `rwFields` too (on the pinned tree `Sender.reqMsgCache`, read
+    under `RLock`). PARTIAL as above: nothing about `undisciplined`, nothing about memory the
+    analyser does not see. -/
+theorem c17_disciplined_fields_ordered_rw (f : Nat) (hf : f ∈ sharedFields) (hd : f ∉ undisciplined)
+    (t1 t2 : Nat) (w1 w2 : Bool) (hne : t1 ≠ t2) (hconf : w1 = true ∨ w2 = true)
+    (later mid earlier : List RaceRW.Ev)
+    (hwf : RaceRW.WF (later ++ RaceRW.Ev.acc t2 f w2 :: (mid ++ RaceRW.Ev.acc t1 f w1 :: earlier)))
+    (ht : TableGuardedRW (later ++ RaceRW.Ev.acc t2 f w2 :: (mid ++ RaceRW.Ev.acc t1 f w1 :: earlier))) :
+    ∃ m mid2 e2 mid1 e1 mid0, mid = mid2 ++ e2 :: (mid1 ++ e1 :: mid0) ∧
+      RaceRW.IsAcq e2 t2 m ∧ RaceRW.IsRel e1 t1 m := by
+  have hc := c17_guarded_by f hf hd
+  cases hm : commonLock f with
+  | none => exact absurd hm hc
+  | some m =>
+    exact ⟨m, guardedRW_trace_ordered m f t1 t2 w1 w2 hne hconf later mid earlier hwf (ht f m hm)⟩
 
 end Spine.Props.C17
